@@ -147,6 +147,52 @@ var nativeFor = map[string][]string{
 	gen.TIPv6:             {"ip", "bytes"},
 }
 
+// foreignFor lists, per data type, the OTHER datatype.* types a field may be
+// declared with: Go converts them to the dictionary's type and back without
+// loss for every value of the data type (string kinds among themselves, a
+// wider or equally wide integer / float kind). Marshal must still produce the
+// dictionary's type. Written "dt:<Name>" in FieldT.Go.
+var foreignFor = map[string][]string{
+	gen.TOctetString:      {gen.TUTF8String, gen.TDiameterIdentity, gen.TDiameterURI, gen.TIPFilterRule},
+	gen.TUTF8String:       {gen.TOctetString, gen.TDiameterIdentity, gen.TQoSFilterRule},
+	gen.TDiameterIdentity: {gen.TOctetString, gen.TUTF8String, gen.TDiameterURI},
+	gen.TDiameterURI:      {gen.TOctetString, gen.TUTF8String, gen.TDiameterIdentity},
+	gen.TIPFilterRule:     {gen.TOctetString, gen.TUTF8String, gen.TQoSFilterRule},
+	gen.TQoSFilterRule:    {gen.TOctetString, gen.TUTF8String, gen.TIPFilterRule},
+	gen.TUnsigned32:       {gen.TUnsigned64, gen.TInteger64},
+	gen.TInteger32:        {gen.TEnumerated, gen.TInteger64},
+	gen.TEnumerated:       {gen.TInteger32, gen.TInteger64},
+	gen.TFloat32:          {gen.TFloat64},
+}
+
+// foreign returns the datatype name of a "dt:<Name>" shape.
+func foreign(goName string) (string, bool) {
+	if strings.HasPrefix(goName, "dt:") {
+		return goName[3:], true
+	}
+	return "", false
+}
+
+// kindOf maps a field shape to the native shape with the same reflect kind,
+// so that values are set and compared by kind.
+func kindOf(goName string) string {
+	f, ok := foreign(goName)
+	if !ok {
+		return goName
+	}
+	switch f {
+	case gen.TUnsigned64:
+		return "uint64"
+	case gen.TInteger64:
+		return "int64"
+	case gen.TInteger32, gen.TEnumerated:
+		return "int32"
+	case gen.TFloat64:
+		return "float64"
+	}
+	return "string"
+}
+
 func isStringLike(dt string) bool { return gen.IsStringLike(dt) }
 
 func isIPLike(dt string) bool { return dt == gen.TAddress || dt == gen.TIPv4 || dt == gen.TIPv6 }
@@ -178,6 +224,9 @@ func elemType(ft FieldT) reflect.Type {
 	}
 	if ft.Go == "dt" {
 		return dtTypes[ft.DT]
+	}
+	if f, ok := foreign(ft.Go); ok {
+		return dtTypes[f]
 	}
 	return nativeTypes[ft.Go]
 }
@@ -234,6 +283,14 @@ func validate(fields []FieldT, vals []FieldV, depth int) error {
 			if ft.Go == "dt" {
 				if dtTypes[ft.DT] == nil {
 					return fmt.Errorf("field %d: no datatype type for %q", i, ft.DT)
+				}
+			} else if f, isF := foreign(ft.Go); isF {
+				ok := false
+				for _, n := range foreignFor[ft.DT] {
+					ok = ok || n == f
+				}
+				if !ok || dtTypes[f] == nil {
+					return fmt.Errorf("field %d: datatype.%s is not a lossless foreign type of %s", i, f, ft.DT)
 				}
 			} else {
 				ok := false
@@ -309,7 +366,11 @@ func setScalar(dst reflect.Value, ft FieldT, v gen.Val, nilBytes bool) {
 		dst.Set(reflect.ValueOf(v.ToDatatype()))
 		return
 	}
-	switch ft.Go {
+	if _, ok := foreign(ft.Go); ok && kindOf(ft.Go) == "float64" {
+		dst.SetFloat(float64(math.Float32frombits(uint32(v.U)))) // Float32 data type in a datatype.Float64 field
+		return
+	}
+	switch kindOf(ft.Go) {
 	case "uint32", "uint64", "uint":
 		if ft.DT == gen.TUnsigned32 {
 			dst.SetUint(uint64(uint32(v.U)))
@@ -531,7 +592,7 @@ func cmpScalar(got reflect.Value, ft FieldT, v gen.Val) string {
 		return v.EqualDatatype(d)
 	}
 	bad := func(g interface{}) string { return fmt.Sprintf("want %s, got %s %#v", v.Show(), got.Type(), g) }
-	switch ft.Go {
+	switch kindOf(ft.Go) {
 	case "uint32", "uint64", "uint":
 		w := v.U
 		if ft.DT == gen.TUnsigned32 {
@@ -558,7 +619,7 @@ func cmpScalar(got reflect.Value, ft FieldT, v gen.Val) string {
 			return fmt.Sprintf("want %s, got float32 bits %#x", v.Show(), math.Float32bits(g))
 		}
 	case "float64":
-		g := got.Interface().(float64)
+		g := got.Float()
 		if ft.DT == gen.TFloat32 {
 			if math.Float32bits(float32(g)) != uint32(v.U) || (!math.IsNaN(g) && float64(float32(g)) != g) {
 				return fmt.Sprintf("want %s, got float64 bits %#x", v.Show(), math.Float64bits(g))
